@@ -244,7 +244,12 @@ func (ba *boundAnalysis) rawValues(fn *ssa.Function) map[ssa.Value]*rawInfo {
 					}
 				case *ssa.UnOp:
 					if x.Op == token.MUL {
-						if fv := fieldVar(x.X); fv != nil {
+						if vals, local := localFieldStores(x.X); local {
+							// field of a struct allocated in this function: the values stored here (object-sensitive)
+							for _, sv := range vals {
+								merge(v, raw[sv], "")
+							}
+						} else if fv := fieldVar(x.X); fv != nil {
 							if w, ok := ba.rawField[fv]; ok && isIntegerType(x.Type()) {
 								intrinsic(x, "field "+fv.Name()+" ("+w+")")
 							}
@@ -328,8 +333,42 @@ func (s *fnState) bounded(v ssa.Value, G valSet, depth int) bool {
 		if x.Op != token.MUL {
 			return s.bounded(x.X, G, depth+1)
 		}
+		if vals, local := localFieldStores(x.X); local {
+			for _, sv := range vals {
+				if !s.bounded(sv, G, depth+1) {
+					return false
+				}
+			}
+			return true
+		}
 	}
 	return false
+}
+
+// localFieldStores: addr is a field of a struct allocated in the same function (composite literal / new); returns
+// the values stored into that field of that object in the function.
+func localFieldStores(addr ssa.Value) ([]ssa.Value, bool) {
+	fa, ok := addr.(*ssa.FieldAddr)
+	if !ok {
+		return nil, false
+	}
+	al, ok := fa.X.(*ssa.Alloc)
+	if !ok {
+		return nil, false
+	}
+	var vals []ssa.Value
+	for _, ref := range *al.Referrers() {
+		fa2, ok := ref.(*ssa.FieldAddr)
+		if !ok || fa2.Field != fa.Field {
+			continue
+		}
+		for _, r2 := range *fa2.Referrers() {
+			if st, ok := r2.(*ssa.Store); ok && st.Addr == ssa.Value(fa2) {
+				vals = append(vals, st.Val)
+			}
+		}
+	}
+	return vals, len(vals) > 0
 }
 
 // addBounded adds v and everything it merely converts; and, for v = widen(u) + const where the addition
@@ -528,6 +567,13 @@ func sinksOf(in ssa.Instruction) []sinkUse {
 	case *ssa.MakeChan:
 		out = append(out, sinkUse{"make-chan-size", x.Size, shortType(x.Type())})
 	case *ssa.Call:
+		// relative seeks: an input-derived offset (in particular one that went negative through a uint64 -> int64
+		// conversion) moves the source backwards and the same bytes are lexed again
+		if c := x.Common(); c.IsInvoke() && c.Method.Name() == "Seek" && len(c.Args) == 2 {
+			if wh, ok := c.Args[1].(*ssa.Const); ok && wh.Value != nil && wh.Value.String() == "1" {
+				out = append(out, sinkUse{"seek-offset", c.Args[0], valueLabel(c.Value)})
+			}
+		}
 		switch staticCalleeName(x.Common()) {
 		case "bytes.Repeat", "strings.Repeat":
 			out = append(out, sinkUse{"repeat-count", x.Call.Args[1], trimPkg(staticCalleeName(x.Common()))})
@@ -564,6 +610,7 @@ func (ba *boundAnalysis) analyze(fn *ssa.Function, report bool) bool {
 	edgeOut := map[[2]*ssa.BasicBlock]valSet{}
 	order := fn.DomPreorder()
 	changedSummary := false
+	var passVal []bool
 
 	transfer := func(b *ssa.BasicBlock, G valSet, emit bool) {
 		for _, instr := range b.Instrs {
@@ -657,22 +704,17 @@ func (ba *boundAnalysis) analyze(fn *ssa.Function, report bool) bool {
 				// composite results: struct literal fields are handled through rawField (stores)
 				// validates: on a nil-error return, which integer params are bounded?
 				if errIdx >= 0 && isNilConst(x.Results[errIdx]) {
-					val := ba.validates[fn]
-					first := val == nil
-					if first {
-						val = make([]bool, len(fn.Params))
-						for i := range val {
-							val[i] = isIntegerType(fn.Params[i].Type())
+					// recomputed from scratch in every pass (callee summaries improve between passes)
+					if passVal == nil {
+						passVal = make([]bool, len(fn.Params))
+						for i := range passVal {
+							passVal[i] = isIntegerType(fn.Params[i].Type())
 						}
 					}
 					for i, prm := range fn.Params {
-						if val[i] && !G[prm] {
-							val[i] = false
+						if passVal[i] && !G[prm] {
+							passVal[i] = false
 						}
-					}
-					if first || !equalBools(val, ba.validates[fn]) {
-						ba.validates[fn] = val
-						changedSummary = changedSummary || first
 					}
 				}
 			}
@@ -755,13 +797,16 @@ func (ba *boundAnalysis) analyze(fn *ssa.Function, report bool) bool {
 			break
 		}
 	}
-	if report {
-		for _, b := range order {
-			if !visited[b] {
-				continue
-			}
-			transfer(b, in[b].clone(), true)
+	// validates summary: from one clean pass over the converged states
+	passVal = nil
+	for _, b := range order {
+		if visited[b] {
+			transfer(b, in[b].clone(), report)
 		}
+	}
+	if passVal != nil && !equalBools(passVal, ba.validates[fn]) {
+		ba.validates[fn] = passVal
+		changedSummary = true
 	}
 	return changedSummary
 }
